@@ -319,6 +319,9 @@ def render(e, partial=None):
     if k == 'filter':
         # inside the predicate a partial path denotes the subject, not the shape source
         return f'(select v{e[1]} := {r(e[2])} filter {render(e[3], None)})'
+    if k == 'filterp':
+        # unaliased subject: partial paths in the predicate denote the subject
+        return f'(select {r(e[2])} filter {render(e[3], e[1])})'
     if k == 'limit':
         return f'(select {r(e[1])} limit {e[2]})'
     if k == 'offset':
@@ -348,7 +351,7 @@ def render_query(e):
 CHILD_IDX = {
     'lit': (), 'empty': (), 'root': (), 'var': (), 'ptr': (1,), 'back': (1,), 'tup': (1, 2), 'arr': (1, 2),
     'proj': (1,), 'union': (1, 2), 'distinct': (1,), 'if': (1, 2, 3), 'coal': (1, 2), 'exists': (1,),
-    'sel': (1,), 'filter': (2, 3), 'limit': (1,), 'offset': (1,), 'limitx': (1, 2), 'offsetx': (1, 2),
+    'sel': (1,), 'filter': (2, 3), 'filterp': (2, 3), 'limit': (1,), 'offset': (1,), 'limitx': (1, 2), 'offsetx': (1, 2),
     'for': (2, 3),
 }
 
@@ -376,7 +379,7 @@ def features(e):
     fs = set()
     for n in walk(e):
         fs.add(n[0] if n[0] != 'call' else 'call:' + n[1])
-        if n[0] == 'filter':
+        if n[0] in ('filter', 'filterp'):
             for m in walk(n[3]):
                 if m[0] == 'call' and m[1] == 'eq':
                     fs.add('filter-eq')
@@ -388,7 +391,7 @@ def nontrivial(e):
     optional primitive / a multi pointer hop) -- a bare literal, root or single path is trivial."""
     n = 0
     for x in walk(e):
-        if x[0] in ('union', 'distinct', 'if', 'coal', 'exists', 'filter', 'limit', 'offset', 'limitx',
+        if x[0] in ('union', 'distinct', 'if', 'coal', 'exists', 'filter', 'filterp', 'limit', 'offset', 'limitx',
                     'offsetx', 'for', 'shape', 'back', 'ptr'):
             n += 1
         elif x[0] == 'call' and any(m != 'S' for m in PRIMS[x[1]][0] + (PRIMS[x[1]][1],)):
@@ -419,8 +422,10 @@ class Gen:
     def pick_type(self, depth):
         r = self.rnd.random()
         tids = list(self.sch.types)
-        if r < 0.35:
+        if r < 0.32:
             return ('o', self.rnd.choice(tids))
+        if r < 0.37 and len(tids) > 1:
+            return ('ou',)
         if r < 0.55:
             return ('i',)
         if r < 0.75:
@@ -492,6 +497,8 @@ class Gen:
             return ['tup', self.leaf(ty[1], env, pa), self.leaf(ty[2], env, pa)]
         if ty[0] == 'a':
             return ['arr', self.leaf(ty[1], env, pa), self.leaf(ty[1], env, pa)]
+        if ty[0] == 'ou':
+            return self.p_mix(ty, env, 0, pa)
         raise ValueError(ty)
 
     def productions(self, ty, env, pa):
@@ -511,6 +518,8 @@ class Gen:
                     'coal', 'assert', 'leaf']
         if ty[0] == 'a':
             return ['leaf']
+        if ty[0] == 'ou':
+            return ['mix', 'mix', 'mix', 'union', 'distinct', 'limit', 'sel', 'if', 'coal', 'assert']
         raise ValueError(ty)
 
     # -- productions (return None when not applicable)
@@ -522,6 +531,19 @@ class Gen:
 
     def p_unionmix(self, ty, env, d, pa):
         return None
+
+    def p_mix(self, ty, env, d, pa):
+        """objects of two (mostly different) types united: a union type"""
+        rnd = self.rnd
+        tids = list(self.sch.types)
+        t1 = rnd.choice(tids)
+        t2 = rnd.choice([t for t in tids if t != t1] or tids) if rnd.random() < 0.85 else t1
+        a = self.gen(('o', t1), env, d, pa)
+        b = self.gen(('o', t2), env, d, pa)
+        if rnd.random() < 0.35:
+            c = self.gen(('o', rnd.choice(tids)), env, min(d, 1), pa)
+            return rnd.choice((['union', ['union', a, b], c], ['union', c, ['union', a, b]]))
+        return ['union', a, b]
 
     def p_distinct(self, ty, env, d, pa):
         return ['distinct', self.gen(ty, env, d, pa)]
@@ -558,7 +580,7 @@ class Gen:
     def p_for(self, ty, env, d, pa):
         x = self.fresh()
         ity = self.pick_type(d)
-        if ity[0] == 'a':
+        if ity[0] in ('a', 'ou'):
             ity = ('i',)
         it = self.gen(ity, env, d, pa)
         body = self.gen(ty, env + [(x, ity, 'for')], d, pa)
@@ -613,12 +635,16 @@ class Gen:
     def p_filter(self, ty, env, d, pa):
         x = self.fresh()
         s = self.gen(ty, env, d, pa)
+        if ty[0] == 'o' and self.rnd.random() < 0.35:
+            pred = self.pred(x, ty, env + [(x, ty, 'shape')], d, partial=True)
+            return ['filterp', x, s, pred]
         pred = self.pred(x, ty, env + [(x, ty, 'flt')], d)
         return ['filter', x, s, pred]
 
-    def pred(self, x, ty, env, d):
+    def pred(self, x, ty, env, d, partial=False):
         """predicate over subject x; inside it no partial path may refer to an outer shape"""
         rnd = self.rnd
+        self.cur_partial = x if partial else None
         if ty[0] == 'o' and rnd.random() < 0.75:
             atoms = []
             for _ in range(rnd.choice((1, 1, 2))):
@@ -630,15 +656,16 @@ class Gen:
                 for a in atoms[1:]:
                     p = ['call', rnd.choice(('and', 'and', 'or')), p, a]
                 if rnd.random() < 0.15:
-                    p = ['call', 'and', p, self.gen(('b',), env, min(d, 1), None)]
+                    p = ['call', 'and', p, self.gen(('b',), env, min(d, 1), x if partial else None)]
                 return p
-        return self.gen(('b',), env, d, None)
+        return self.gen(('b',), env, d, x if partial else None)
 
     def excl_atom(self, x, ty, env, d):
         rnd = self.rnd
         tid = ty[1]
         r = rnd.random()
-        if r < 0.12:
+        ppa = x if any(v == x and k == 'shape' for v, _, k in env) else None
+        if r < 0.12 and ppa is None:
             # self reference:  x = <single object>
             rhs = self.gen(('o', tid), env, min(d, 1), None)
             if rnd.random() < 0.7:
@@ -664,11 +691,11 @@ class Gen:
         if rr < 0.5 and pty[0] in 'is':
             rhs = self.lit(pty, many=False)
         elif rr < 0.8:
-            rhs = self.gen(pty, [v for v in env if v[0] != x] if rnd.random() < 0.7 else env, min(d, 1), None)
+            rhs = self.gen(pty, [v for v in env if v[0] != x] if rnd.random() < 0.7 else env, min(d, 1), ppa)
             if rnd.random() < 0.5:
                 rhs = ['limit', rhs, 1]
         else:
-            rhs = self.gen(pty, env, min(d, 1), None)
+            rhs = self.gen(pty, env, min(d, 1), ppa)
         return self.flip(lhs, rhs)
 
     def flip(self, a, b):
@@ -786,8 +813,10 @@ class Gen:
         return ['call', 'in', self.gen(t, env, d, pa), self.gen(t, env, d, pa)]
 
     def p_opteq(self, ty, env, d, pa):
+        # toy_eval_model's `?=` is only right when neither operand is multi: keep them single
         t = (self.rnd.choice('is'),)
-        return ['call', 'opteq', self.gen(t, env, d, pa), self.gen(t, env, d, pa)]
+        one = lambda e: e if e[0] in ('var', 'empty') or (e[0] == 'lit' and len(e) == 2) else ['limit', e, 1]
+        return ['call', 'opteq', one(self.gen(t, env, d, pa)), one(self.gen(t, env, d, pa))]
 
     def p_anyall(self, ty, env, d, pa):
         return ['call', self.rnd.choice(('any', 'all')), self.gen(ty, env, d, pa)]
@@ -799,7 +828,7 @@ class Gen:
         els = []
         for i in range(rnd.choice((1, 1, 2, 3))):
             ety = self.pick_type(d)
-            if ety[0] == 'a':
+            if ety[0] in ('a', 'ou'):
                 ety = ('i',)
             q = rnd.choice(('-', '-', '-', '-', 'r', 's', 'm', 'rs', 'rm', 'o'))
             body = self.gen(ety, env + [(x, ty, 'shape')], min(d, 2), x)
@@ -815,6 +844,10 @@ def gen_expr(rnd, schema_sx, depth=None, liberal=False, want=None):
     ty = want or g.pick_type(depth)
     if ty[0] == 'a':
         ty = ('i',)
+    if ty[0] == 't' and (ty[1][0] == 'o' or ty[2][0] == 'o'):
+        # a top-level tuple that contains objects is eta-expanded by the compiler
+        # (stmtctx.fini_expression); that output rewriting is outside the calculus
+        ty = ('t', ('i',) if ty[1][0] == 'o' else ty[1], ('s',) if ty[2][0] == 'o' else ty[2])
     for _ in range(20):
         try:
             e = g.gen(ty, [], depth, None)
